@@ -678,18 +678,18 @@ def isGuardAssign : SStmt → Bool
   | .assign [.name t] _ => isIfTarg t
   | _ => false
 
-/-- evidence only: which shapes of `if` were rewritten -/
-def noteIf (e b' e' : List SStmt) : RM Unit := do
-  note "if"
-  if !e.isEmpty then note "else"
-  match e with
-  | [.ifs _ _ _] => note "elif"
-  | _ => pure ()
-  if b'.any isGuardAssign then note "if-in-if-body"
-  if e'.any isGuardAssign then note "if-in-else"
+/-- evidence only: record several rules -/
+def notes (l : List String) : RM Unit := modify fun st =>
+  { st with log := l.foldl (fun acc m => if acc.contains m then acc else acc ++ [m]) st.log }
 
-def noteFor (e : List SStmt) : RM Unit := do
-  if !e.isEmpty then note "for-else-dropped"
+/-- evidence only: which shapes of `if` were rewritten -/
+def noteIf (e b' e' : List SStmt) : RM Unit :=
+  notes (["if"] ++ (if !e.isEmpty then ["else"] else [])
+    ++ (match e with | [.ifs _ _ _] => ["elif"] | _ => [])
+    ++ (if b'.any isGuardAssign then ["if-in-if-body"] else [])
+    ++ (if e'.any isGuardAssign then ["if-in-else"] else []))
+
+def noteFor (e : List SStmt) : RM Unit := notes (if !e.isEmpty then ["for-else-dropped"] else [])
 
 mutual
 /-- `ASTRewriter.visit` on a statement; `θ` = the loop-variable replacements of the enclosing loops -/
